@@ -176,12 +176,19 @@ func child(r *Rand, tier string, replay []string) {
 					h.generate(i)
 				}
 				emit(fmt.Sprintf("H\t%d\t%s", i, h.header()))
-				synctest.Test(t, func(t *testing.T) { h.execute() })
-				emit(fmt.Sprintf("E\t%d\t%s\t%s\t%s\t%s", i, h.kindName(), h.result, h.class, map[bool]string{true: "1", false: "0"}[h.nontrivial]))
-				if h.stuck {
-					w.Flush()
-					os.Exit(3)
+				end := func() {
+					emit(fmt.Sprintf("E\t%d\t%s\t%s\t%s\t%s", i, h.kindName(), h.result, h.class, map[bool]string{true: "1", false: "0"}[h.nontrivial]))
 				}
+				synctest.Test(t, func(t *testing.T) {
+					h.execute()
+					if h.stuck {
+						// goroutines of this history are blocked for good: the bubble cannot be left
+						end()
+						w.Flush()
+						os.Exit(3)
+					}
+				})
+				end()
 			}
 			emit("DONE")
 			w.Flush()
@@ -226,6 +233,8 @@ type call struct {
 	on     int  // pipelined: the call whose answer it is made on
 	pred   int  // -1 or the previous call of the same caller
 	field  uint16
+	slow   bool // pipelined: if delivered by the drain loop, the target withholds its delivery acknowledgement (Recv blocks) until decision K
+	self   bool // direct call whose result capabilities are the server itself (directed corpus cases only)
 
 	ctx    context.Context
 	cancel context.CancelFunc
@@ -241,6 +250,8 @@ type call struct {
 	sendDone                       bool
 	completions                    []string
 	delivered, tret                bool
+	blocked                        bool
+	ackCh                          chan struct{}
 	trecv                          capnp.Recv
 	enqSeq                         int
 }
@@ -335,6 +346,7 @@ func (h *hist) generate(i int) {
 		} else {
 			c.on = r.Intn(id)
 			c.field = fields[r.Intn(len(fields))]
+			c.slow = r.Intn(3) == 0
 		}
 		k := r.Intn(ncallers)
 		c.pred = last[k]
@@ -354,8 +366,12 @@ func (h *hist) header() string {
 		switch {
 		case c.direct && c.send:
 			fmt.Fprintf(&sb, " s:%s", pr)
+		case c.direct && c.self:
+			fmt.Fprintf(&sb, " d:%s:self", pr)
 		case c.direct:
 			fmt.Fprintf(&sb, " d:%s", pr)
+		case c.slow:
+			fmt.Fprintf(&sb, " p%d:%s:%d:slow", c.on, pr, c.field)
 		default:
 			fmt.Fprintf(&sb, " p%d:%s:%d", c.on, pr, c.field)
 		}
@@ -378,6 +394,7 @@ func (h *hist) parse(line string) {
 		switch s[0][0] {
 		case 'd':
 			c.direct = true
+			c.self = len(s) > 2 && s[2] == "self"
 		case 's':
 			c.direct, c.send = true, true
 		case 'p':
@@ -386,6 +403,7 @@ func (h *hist) parse(line string) {
 				x, _ := strconv.Atoi(s[2])
 				c.field = uint16(x)
 			}
+			c.slow = len(s) > 3 && s[3] == "slow"
 		}
 		h.calls = append(h.calls, c)
 	}
@@ -486,7 +504,12 @@ func (h *hist) impl(ctx context.Context, sc *server.Call) error {
 
 func (h *hist) fillCaps(res capnp.Struct, of int) {
 	for _, f := range fields {
-		cl := capnp.NewClient(&target{h: h, of: of, field: f})
+		var cl *capnp.Client
+		if h.calls[of].direct && h.calls[of].self {
+			cl = capnp.NewClient(selfHook{h})
+		} else {
+			cl = capnp.NewClient(&target{h: h, of: of, field: f})
+		}
 		id := res.Message().AddCap(cl)
 		if err := res.SetPtr(f, capnp.NewInterface(res.Segment(), id).ToPtr()); err != nil {
 			panic(err)
@@ -521,7 +544,7 @@ func (t *target) Recv(ctx context.Context, r capnp.Recv) capnp.PipelineCaller {
 	ev := fmt.Sprintf("v%d:r%d", id, t.of)
 	h.log = append(h.log, ev)
 	h.deliv = append(h.deliv, ev)
-	h.mu.Unlock()
+	h.holdAck(p)
 	return &fwd{h: h, of: id}
 }
 
@@ -533,6 +556,19 @@ func (t *target) Send(ctx context.Context, s capnp.Send) (*capnp.Answer, capnp.R
 }
 func (t *target) Brand() capnp.Brand { return capnp.Brand{} }
 func (t *target) Shutdown()          {}
+
+// selfHook is the server's own capability as it appears in a result struct (Shutdown is not
+// forwarded: the harness owns the server).
+type selfHook struct{ h *hist }
+
+func (s selfHook) Recv(ctx context.Context, r capnp.Recv) capnp.PipelineCaller {
+	return s.h.srv.Recv(ctx, r)
+}
+func (s selfHook) Send(ctx context.Context, snd capnp.Send) (*capnp.Answer, capnp.ReleaseFunc) {
+	return s.h.srv.Send(ctx, snd)
+}
+func (s selfHook) Brand() capnp.Brand { return capnp.Brand{} }
+func (s selfHook) Shutdown()          {}
 
 // fwd is the PipelineCaller a target returns for a delivered call that has not returned yet.
 type fwd struct {
@@ -560,7 +596,7 @@ func (f *fwd) PipelineRecv(ctx context.Context, transform []capnp.PipelineOp, r 
 	ev := fmt.Sprintf("v%d:f%d", id, f.of)
 	h.log = append(h.log, ev)
 	h.deliv = append(h.deliv, ev)
-	h.mu.Unlock()
+	h.holdAck(p)
 	return &fwd{h: h, of: id}
 }
 
@@ -569,6 +605,20 @@ func (f *fwd) PipelineSend(ctx context.Context, transform []capnp.PipelineOp, s 
 	f.h.flag("unexpected-send-on-target")
 	f.h.mu.Unlock()
 	return capnp.ErrorAnswer(s.Method, capnp.Unimplemented("harness target: PipelineSend")), func() {}
+}
+
+// holdAck is called with h.mu held at the end of a delivery: a slow target that received a queued
+// call (i.e. from the drain loop) does not return from Recv until decision K.
+func (h *hist) holdAck(p *call) {
+	if p.slow && p.queued {
+		p.blocked = true
+		p.ackCh = make(chan struct{})
+		ch := p.ackCh
+		h.mu.Unlock()
+		<-ch
+		return
+	}
+	h.mu.Unlock()
 }
 
 // queue order monitor: a queued call must not be delivered after a call that entered the same
@@ -715,9 +765,20 @@ func (h *hist) available(step int) ([]decision, []int) {
 		}
 	}
 	late := step > 6*len(h.calls)+6
+	// a drain loop is stuck in a slow target: calls arriving now arrive "during the drain"
+	stuckRoot := map[int]bool{}
+	for _, c := range h.calls {
+		if !c.direct && c.blocked {
+			stuckRoot[h.rootOf(c)] = true
+		}
+	}
 	for _, c := range h.calls {
 		if h.canIssue(c) {
-			add(decision{kind: 'I', c: c.id}, 6)
+			w := 6
+			if !c.direct && stuckRoot[h.rootOf(c)] {
+				w = 30
+			}
+			add(decision{kind: 'I', c: c.id}, w)
 		}
 		if c.began && !c.implRet {
 			if !c.acked {
@@ -730,7 +791,14 @@ func (h *hist) available(step int) ([]decision, []int) {
 			add(decision{kind: 'R', c: c.id, err: false}, w)
 			add(decision{kind: 'R', c: c.id, err: true}, 1+w/4)
 		}
-		if !c.direct && c.delivered && !c.tret {
+		if !c.direct && c.blocked {
+			w := 3
+			if late {
+				w = 8
+			}
+			add(decision{kind: 'K', c: c.id}, w)
+		}
+		if !c.direct && c.delivered && !c.tret && !c.blocked {
 			w := 2
 			if late {
 				w = 6
@@ -774,7 +842,9 @@ func (h *hist) applicable(d decision) bool {
 	case 'R':
 		return c.began && !c.implRet
 	case 'T':
-		return !c.direct && c.delivered && !c.tret
+		return !c.direct && c.delivered && !c.tret && !c.blocked
+	case 'K':
+		return !c.direct && c.blocked
 	case 'X':
 		return !c.cancelled
 	}
@@ -812,6 +882,10 @@ func (h *hist) apply(d decision) {
 			h.fillCaps(res, c.id)
 			r.Return()
 		}()
+	case 'K':
+		c := h.calls[d.c]
+		c.blocked = false
+		close(c.ackCh)
 	case 'X':
 		c := h.calls[d.c]
 		c.cancelled = true
